@@ -528,7 +528,21 @@ func drawShape(s *core.Source, z maptile.Zoom, areaOnly bool) *shape {
 			}
 			return op
 		}
-		switch s.Pick([]int{5, 1, 2, 2}, "polykind") {
+		switch s.Pick([]int{5, 1, 2, 2, 2}, "polykind") {
+		case 4:
+			// a rectangle symmetric about the world centre whose vertical edges lie exactly on
+			// tile boundaries (longitudes that are whole tiles) - the fill's tie cases
+			sh.class = "gridrect/" + size
+			kx := 1 + s.Intn(12, "kx")
+			lon := float64(kx) * 360 / n
+			if lon > 170 || z == 0 {
+				lon = 170
+			}
+			lat := math.Atan(math.Sinh(2*math.Pi*float64(1+s.Intn(48, "ky"))/4/n)) * 180 / math.Pi
+			if lat > 84 {
+				lat = 84
+			}
+			sh.geom = orb.Polygon{orb.Ring{{-lon, -lat}, {lon, -lat}, {lon, lat}, {-lon, lat}, {-lon, -lat}}}
 		case 0:
 			sh.geom = drawPoly(c)
 		case 1:
